@@ -876,7 +876,9 @@ def check_order(case, after=None, alone=None):
 
 H_STEPS = [["set", ["hosts"], S("h2")], ["set", ["hosts"], L(S("a"))], ["set", ["k"], S("b")],
            ["set", ["k"], L(S("a"), I(1))], ["set", ["vars", "x"], I(2)], ["set", ["vars", SIG], S("c2lnMg==")],
-           ["del", ["hosts"]], ["poke-remainder"]]
+           ["del", ["hosts"]], ["set", ["k"], M()]]
+# not demanded (the statement is silent): that the returned remainder shares no objects with the play - an
+# implementation may copy only along the deleted paths
 H_BASES = [wrap([(S("k"), L(S("a")))], vafter=[(S("x"), I(1))]),
            wrap([(S("k"), M((S("c"), S("a"))))], exc="/vars", vafter=[(S("x"), M((S("y"), I(1))))], pos="before")]
 
@@ -962,12 +964,7 @@ def check_hist(case):
         step = H_STEPS[si]
         _obj_apply(obj, step)
         pe = _enc_apply(pe, step)
-        if m.fp_obj(obj) != m.fp(pe):
-            if step[0] == "poke-remainder":
-                out.append(("digest:independent-of-history", "the play is untouched by edits of the returned remainder",
-                            m.enc(obj), {"history": "remainder_shares_objects_with_play"}))
-                return out
-            raise RuntimeError("harness: step %r applied differently to object and encoding" % (step,))
+        # (if the real code itself modified the long-lived play while digesting it, the next comparison shows it)
         got, want = _outcome(pipeline(obj)), _outcome(pipeline(m.dec(pe, dict)))
         if got != want:
             out.append(("digest:independent-of-history", {"fresh play with the same content": want},
